@@ -120,6 +120,12 @@ func (r *Run) Eval(n int) { r.mu.Lock(); r.Evaluations += n; r.mu.Unlock() }
 // NonTrivial records the digest of a distinct non-trivial case.
 func (r *Run) NonTrivial(digest string) { r.mu.Lock(); r.Distinct[digest] = true; r.mu.Unlock() }
 
+func (r *Run) NonTrivialIf(cond bool, digest string) {
+	if cond {
+		r.NonTrivial(digest)
+	}
+}
+
 func (r *Run) Count(key string, n int) { r.mu.Lock(); r.Counters[key] += n; r.mu.Unlock() }
 
 func (r *Run) Sample(s any) {
